@@ -865,11 +865,22 @@ func sanitizeBucketName(raw string) string {
 		}
 	}
 	out := strings.Trim(b.String(), "-")
-	if out == "" {
+	// S3 bucket names are 3 to 63 characters long and start and end with a
+	// letter or digit. Namespace and cluster name can each be 63 characters,
+	// so the joined name has to be cut (and re-trimmed, the cut may end on '-').
+	if len(out) > maxBucketNameLength {
+		out = strings.Trim(out[:maxBucketNameLength], "-")
+	}
+	if len(out) < minBucketNameLength {
 		return defaultSnapshotBucketPrefix
 	}
 	return out
 }
+
+const (
+	minBucketNameLength = 3
+	maxBucketNameLength = 63
+)
 
 func etcdLabels(cluster *kafscalev1alpha1.KafscaleCluster) map[string]string {
 	return map[string]string{
